@@ -384,7 +384,7 @@ def nontrivial(defn: dict) -> bool:
 
 def features(defn: dict, acc: dict | None = None) -> dict:
     acc = acc if acc is not None else {}
-    for k in ("defaults", "hooks", "old", "sub", "mixed", "extends", "wrapped", "kw_only"):
+    for k in ("defaults", "hooks", "old", "sub", "mixed", "extends", "wrapped", "kw_only", "static_hooks", "override"):
         if defn.get(k):
             acc[k] = 1
     for i, f in enumerate(defn["fields"]):
@@ -638,7 +638,15 @@ def _hook_namespace(defn: dict) -> dict:
         if h is None:
             continue
         if h[0] is not None:
-            ns["fix_pack_" + n] = (lambda P: lambda self, value: P(value))(h[0])
+            # a pack rule may be written as a plain method, a static method or a class method: the interpreted form
+            # looks it up on the instance, so all three are legal
+            how = defn.get("static_hooks", 0)
+            if how == 1:
+                ns["fix_pack_" + n] = staticmethod((lambda P: lambda value: P(value))(h[0]))
+            elif how == 2:
+                ns["fix_pack_" + n] = classmethod((lambda P: lambda cls, value: P(value))(h[0]))
+            else:
+                ns["fix_pack_" + n] = (lambda P: lambda self, value: P(value))(h[0])
         if h[1] is not None:
             ns["fix_unpack_" + n] = classmethod((lambda U: lambda cls, value: U(value))(h[1]))
     return ns
@@ -738,6 +746,15 @@ class Forms:
             return self._build_plain(defn, self)
         if self.kind == "compiled":
             from ipv8.messaging.lazy_payload import vp_compile
+            if defn.get("override") and any(hook_of(defn, n) is not None and hook_of(defn, n)[0] is not None
+                                            for n in defn["names"]):
+                # the compiled definition carries do-nothing pack rules; a class derived from it (not compiled again)
+                # overrides them with the real ones - the plain twin simply has the real ones
+                decoy = {k: (lambda self, value: value) for k in _hook_namespace(defn) if k.startswith("fix_pack_")}
+                plain = self._build_plain(defn, self.plain if defn.get("mixed") else self)
+                base = vp_compile(type(defn["name"] + "Parent", (plain,), {"__module__": SCRATCH, **decoy}))
+                real = {k: v for k, v in _hook_namespace(defn).items() if k.startswith("fix_pack_")}
+                return type(defn["name"], (base,), {"__module__": SCRATCH, **real})
             if defn.get("sub"):
                 return vp_compile(type(defn["name"], (self.plain.cls(defn),), {"__module__": SCRATCH}))
             return vp_compile(self._build_plain(defn, self.plain if defn.get("mixed") else self))
@@ -1286,6 +1303,10 @@ def _definition_strategy(plain_formats: list[str]):
             defn["native"] = 1
         if len(fields) > 1 and draw(st.integers(0, 2)) == 0:
             defn["extends"] = [draw(st.integers(1, len(fields) - 1)), draw(st.integers(0, 1)), draw(st.integers(0, 1))]
+        if hooks and draw(st.integers(0, 2)) == 0:
+            defn["static_hooks"] = draw(st.integers(1, 2))
+        if hooks and draw(st.integers(0, 3)) == 0:
+            defn["override"] = 1
         if defaults and draw(st.integers(0, 3)) == 0:
             defn["wrapped"] = 1
         if defaults and draw(st.integers(0, 3)) == 0:
